@@ -13,13 +13,26 @@ class Violation(Exception):
     """
 
     def __init__(self, clause, sig=None, detail=""):
-        super().__init__(clause, sig, detail)
+        super().__init__(clause, sig)
         self.clause = clause
         self.sig = sig or clause
-        self.detail = detail
+        self._detail = detail
+
+    @property
+    def detail(self):
+        """evaluated lazily (a callable detail renders symbolic values: doing that eagerly on a path that merely hits a
+        known finding would realise them digit by digit and multiply paths)."""
+        d = self._detail
+        if callable(d):
+            try:
+                d = d()
+            except Exception as e:  # pragma: no cover
+                d = f"<detail failed: {e!r}>"
+            self._detail = d
+        return d
 
     def __str__(self):
-        return f"{self.sig}: {self.detail}"
+        return f"{self.sig}"
 
 
 def assume(cond):
@@ -31,11 +44,6 @@ def check(cond, clause, sig=None, detail=""):
     """detail may be a zero-argument callable: it is evaluated only on failure (an eager f-string over symbolic
     values would realise them on every path)."""
     if not cond:
-        if callable(detail):
-            try:
-                detail = detail()
-            except Exception as e:  # pragma: no cover
-                detail = f"<detail failed: {e!r}>"
         raise Violation(clause, sig, detail)
 
 
